@@ -595,3 +595,50 @@ def roundtrip_check(tier, seed, jobs=16):
             total += n
             fails += f
     return len(items), total, fails
+
+
+# -------------------------------------------------------------------------------------------
+# C18: visitor contracts (bounded)
+
+def _visitor_chunk(args):
+    items, edit_budget = args
+    from . import visitcheck as VC
+    from py_gql.exc import GraphQLSyntaxError
+    from py_gql.lang import parser as P
+    n = nodes = edits = 0
+    fails = []
+    for text in items:
+        parse = lambda t: P.parse(t, allow_type_system=True, experimental_fragment_variables=True)
+        try:
+            doc = parse(text)
+        except GraphQLSyntaxError:
+            continue
+        n += 1
+        f, k = VC.check_trace(doc)
+        nodes += k
+        for clause, w, detail in f:
+            fails.append((clause, dict(w, text=text), detail))
+        if edits < edit_budget:
+            f2, ne = VC.check_edits(text, parse)
+            edits += ne
+            fails += f2
+            fails += VC.check_chain(text, parse)
+    return n, nodes, edits, fails
+
+
+def visitor_check(tier, seed, jobs=16):
+    texts = [t for e, t in roundtrip_corpus(tier, seed) if e == "document"]
+    texts = list(dict.fromkeys(texts))
+    size = max(1, len(texts) // (jobs * 4))
+    budget = 4000 if tier == "thorough" else 1200
+    chunks = [(texts[i:i + size], budget) for i in range(0, len(texts), size)]
+    total = nodes = edits = 0
+    fails = []
+    ctx = mp.get_context("fork")
+    with ctx.Pool(jobs) as pool:
+        for n, nn, ne, f in pool.imap_unordered(_visitor_chunk, chunks):
+            total += n
+            nodes += nn
+            edits += ne
+            fails += f
+    return total, nodes, edits, fails
